@@ -6,6 +6,9 @@ import (
 	"errors"
 	"fmt"
 	"io"
+	"net"
+	"os"
+	"syscall"
 	"testing"
 
 	"github.com/bluenviron/gomavlib/v3/pkg/dialect"
@@ -349,12 +352,19 @@ func checkStreamSizes(t *rapid.T, sc *streamCase, rec *evid.Rec, fixedSizes []in
 		if t != nil {
 			k = rapid.IntRange(0, len(data)-1).Draw(t, "fault_at")
 		}
-		ft, herr := feed(sc, data, sizes, k, errInjected)
-		if herr != nil {
-			return fmt.Errorf("fault at %d: %v", k, herr)
+		// whatever value the transport fails with - also the errors a descriptor reports when a system call was
+		// interrupted or has nothing yet - it is the caller's to see, as it is
+		var ferr error = errInjected
+		if t != nil {
+			ferr = rapid.SampledFrom([]error{errInjected, errInjected, syscall.EINTR, syscall.EAGAIN, &os.PathError{Op: "read", Path: "/dev/ttyUSB0", Err: syscall.EAGAIN},
+				os.ErrDeadlineExceeded, io.ErrUnexpectedEOF, &net.OpError{Op: "read", Net: "tcp", Err: syscall.ECONNRESET}}).Draw(t, "fault_value")
 		}
-		if ft.terr != errInjected {
-			return fmt.Errorf("transport error injected at offset %d: reader ended with %v, not the transport's own error", k, ft.terr)
+		ft, herr := feed(sc, data, sizes, k, ferr)
+		if herr != nil {
+			return fmt.Errorf("fault at %d (%v): %v", k, ferr, herr)
+		}
+		if ft.terr != ferr { //nolint:errorlint // the very value
+			return fmt.Errorf("transport error %#v injected at offset %d: reader ended with %#v, not the transport's own error", ferr, k, ft.terr)
 		}
 		if _, err := judge(data[:k], ft.res, sc.di, sc.key); err != nil {
 			return fmt.Errorf("fault at %d: %v", k, err)
